@@ -1,1 +1,57 @@
-From CssV Require Import Base Regex RegexFacts Tokenizer.
+(* C08 -- Tokenizing is total, lossless and reports true source positions.
+   Property theorems only; proofs live in CssV.TokenizerFacts.
+   Model: CssV.Tokenizer.tokenize dc fs text  (dc = doComments, fs = fullsheet) running the
+   productions and tables regenerated from /repo (the CssV.Gen files).                         *)
+From CssV Require Import Base Regex Tokenizer TokenizerFacts.
+
+(* "For every text the tokenizer terminates": the model's fuel is never exhausted and some
+   production always matches, for every text, both modes, comments kept or dropped.       *)
+Theorem tokenize_total : forall dc fs text, exists toks, tokenize dc fs text = Some toks.
+Proof. exact tokenize_total_lemma. Qed.
+Print Assumptions tokenize_total.
+
+(* "its tokens partition the text" *)
+Theorem tokenize_partition : forall text toks,
+  tokenize true false text = Some toks -> concat (map raw toks) = text.
+Proof. exact tokenize_partition_lemma. Qed.
+Print Assumptions tokenize_partition.
+
+(* "concatenating the token values of an escape-free text reproduces it exactly" *)
+Theorem tokenize_values : forall text toks,
+  ~ In 92%N text -> tokenize true false text = Some toks -> concat (map val toks) = text.
+Proof. exact tokenize_values_lemma. Qed.
+Print Assumptions tokenize_values.
+
+(* full-sheet mode: "followed only by the closing delimiter that completes an unterminated
+   comment, string or url( and by the EOF token": at most two characters, each taken from
+   the text itself (the opening quote) or from: star, slash, quote, double quote, closing paren                                 *)
+Theorem tokenize_partition_full : forall text toks,
+  tokenize true true text = Some toks ->
+  exists cmp, concat (map raw toks) = text ++ cmp /\ completion_ok text cmp /\
+              exists pre l c, toks = pre ++ [mkTok (s "EOF") [] [] l c].
+Proof. exact tokenize_partition_full_lemma. Qed.
+Print Assumptions tokenize_partition_full.
+
+Theorem tokenize_values_full : forall text toks,
+  ~ In 92%N text -> tokenize true true text = Some toks ->
+  exists cmp, concat (map val toks) = text ++ cmp /\ completion_ok text cmp.
+Proof. exact tokenize_values_full_lemma. Qed.
+Print Assumptions tokenize_values_full.
+
+(* values equal raw matches wherever the raw match has no backslash (escapes in one token do
+   not disturb the others) *)
+Theorem raw_is_val : forall dc fs text toks,
+  tokenize dc fs text = Some toks -> forall t, In t toks -> ~ In 92%N (raw t) -> val t = raw t.
+Proof. exact raw_is_val_lemma. Qed.
+Print Assumptions raw_is_val.
+
+(* "Every token, with or without escapes in the text, carries the 1-based line and column at
+   which it starts in the source, a leading byte-order mark counting as zero width":
+   after an optional leading BOM token (reported at 1:1), token k is at
+   advance (1,1) (raw t_0 ++ ... ++ raw t_{k-1}); the only exception the code makes is spelled
+   out in pos_ok (the EOF after a comment completed in full-sheet mode).                   *)
+Theorem tokenize_positions : forall fs text toks,
+  tokenize true fs text = Some toks ->
+  exists bom rest, toks = bom ++ rest /\ is_bom_prefix bom /\ pos_ok 1 1 rest.
+Proof. exact tokenize_positions_lemma. Qed.
+Print Assumptions tokenize_positions.
